@@ -1,75 +1,3 @@
-// Minimal stand-in for the four pybind11 names used by nuspacesim's zsteps.cpp.
-// pybind11 is not installed in this sandbox (and not in the offline wheelhouse); this header lets the
-// verification harness rebuild the *unmodified* zsteps.cpp from the working tree and call it via ctypes.
+// Stand-in: everything zsteps.cpp needs is in the stand-in pybind11.h.
 #pragma once
-#include <cstddef>
-#include <cstring>
-#include <memory>
-#include <string>
-#include <utility>
-#include <vector>
-
-namespace pybind11 {
-
-struct buffer_info {
-  void *ptr;
-};
-
-template <typename T> class array_t {
-public:
-  array_t() : buf_(std::make_shared<std::vector<T>>()) {}
-  explicit array_t(std::size_t n) : buf_(std::make_shared<std::vector<T>>(n)) {}
-  buffer_info request() { return buffer_info{static_cast<void *>(buf_->data())}; }
-  std::size_t size() const { return buf_->size(); }
-  const T *data() const { return buf_->data(); }
-
-private:
-  std::shared_ptr<std::vector<T>> buf_;
-};
-
-namespace nssverif {
-using fn_double = std::pair<array_t<double>, array_t<double>> (*)(double, double, double, double, double, double, double);
-using fn_float = std::pair<array_t<float>, array_t<float>> (*)(float, float, float, float, float, float, float);
-struct registry {
-  // overloads in registration order, as pybind11 tries them: 'd' or 'f'
-  std::vector<char> order;
-  fn_double fd = nullptr;
-  fn_float ff = nullptr;
-  std::string name;
-};
-inline registry &reg() {
-  static registry r;
-  return r;
-}
-} // namespace nssverif
-
-struct doc_proxy {
-  template <typename T> doc_proxy &operator=(const T &) { return *this; }
-};
-
-class module_ {
-public:
-  doc_proxy doc() { return doc_proxy(); }
-  template <typename... Extra> module_ &def(const char *name, nssverif::fn_double f, const Extra &...) {
-    auto &r = nssverif::reg();
-    r.name = name;
-    if (!r.fd) { r.fd = f; r.order.push_back('d'); }
-    return *this;
-  }
-  template <typename... Extra> module_ &def(const char *name, nssverif::fn_float f, const Extra &...) {
-    auto &r = nssverif::reg();
-    r.name = name;
-    if (!r.ff) { r.ff = f; r.order.push_back('f'); }
-    return *this;
-  }
-};
-
-} // namespace pybind11
-
-#define PYBIND11_MODULE(name, variable)                                                                              \
-  static void nssverif_init_##name(pybind11::module_ &);                                                              \
-  extern "C" void nssverif_register() {                                                                              \
-    static bool done = false;                                                                                        \
-    if (!done) { pybind11::module_ m; nssverif_init_##name(m); done = true; }                                         \
-  }                                                                                                                  \
-  static void nssverif_init_##name(pybind11::module_ &variable)
+#include "pybind11.h"
